@@ -847,3 +847,72 @@ Proof.
     split; [exact Hp'|]. exists nl'. unfold we_loop in E; cbn [fn_body cf_lbuf_wordend] in E. rewrite E.
     unfold m1. rewrite set_pos_set_pos by assumption. reflexivity.
 Qed.
+
+Definition we_after : stmt := match fn_body cf_lbuf_wordend with SSeq _ (SSeq _ r) => r | _ => SSkip end.
+(* lbuf_wordend from the statement "nl += dir > 0 && ..." on *)
+Definition wordend_from (mf : nat) (b : buf) (big : bool) (dir nl0 r o : Z) : option st3 :=
+  let nl := nl0 + (if (0 <? dir) && is_nl (lchr b r o) then 1 else 0) in
+  match wordend_loop mf b dir nl r o with
+  | None => None
+  | Some (true, res) => Some res
+  | Some (false, (_, r, o)) =>
+      match lbuf_wordlast mf b (if big then 3%N else kindof b r o) dir r o with
+      | None => None
+      | Some (true, r', o') => Some (true, r', o')
+      | Some (false, r', o') => Some (false, r', o')
+      end
+  end.
+
+Lemma we_after_ok m lb bln lbs lines br bo bigz dir nl0 r o mf res d fuel :
+  mot_mem m lb bln lbs lines br bo -> lines_small lines -> lines_nl_ok lines ->
+  cell_at m br r -> cell_at m bo o -> pos_ok r o -> dir_ok dir -> 0 <= nl0 <= 1 -> (nl0 = 1 -> dir < 0) ->
+  wordend_from mf (map chop lines) (negb (bigz =? 0)) dir nl0 r o = Some res -> (mf < fuel)%nat -> (maxlen lines < fuel)%nat ->
+  match exec (callf cprog fuel (S (S (S (S (S d)))))) fuel we_after
+             (mkst [VPtr lb 0; VInt bigz; VInt dir; VPtr br 0; VPtr bo 0; VInt nl0] m) with
+  | ONormal st => Ok (VUndef, memm st) | OReturn v st => Ok (v, memm st) | OErr x => Err x | _ => Err EShape end
+  = let '(s, r', o') := res in Ok (st_val1 s, set_pos m br bo r' o').
+Proof.
+  intros MM Hsm Hok Hr Ho Hp Hd Hnl0 Hnl0d Hres Hmf Hf. pose proof MM as [R Hl Hne Nr No Lr Lo]. pose proof Hp as [Pr Po].
+  set (b := map chop lines) in *. unfold wordend_from in Hres.
+  unfold we_after; cbn [fn_body cf_lbuf_wordend].
+  (let t := eval cbv [we_loop fn_body cf_lbuf_wordend] in we_loop in change t with we_loop).
+  (let t := eval cbv [we_tail fn_body cf_lbuf_wordend] in we_tail in change t with we_tail).
+  remember we_loop as wl eqn:Ewl. remember we_tail as wt eqn:Ewt.
+  set (nl := nl0 + (if (0 <? dir) && is_nl (lchr b r o) then 1 else 0)) in *.
+  assert (Hnl : 0 <= nl <= 1).
+  { unfold nl. destruct (Z.ltb_spec 0 dir); cbn [andb]; [|lia]. destruct (is_nl (lchr b r o)); lia. }
+  (* the statement nl += dir > 0 && uc_code(...) == '\n' *)
+  assert (Hs2 : exec (callf cprog fuel (S (S (S (S (S d)))))) fuel
+            (SExpr (ESetLocal 5 (EBin OAdd I32 (ELocal 5) (EAndAlso (EBin OGt I32 (ELocal 2) (EConst 0))
+               (EBin OEq I32 (ECall F_uc_code [ECall F_lbuf_chr [ELocal 0; ELoad (Some I32) (ELocal 3); ELoad (Some I32) (ELocal 4)]]) (EConst 10))))))
+            (mkst [VPtr lb 0; VInt bigz; VInt dir; VPtr br 0; VPtr bo 0; VInt nl0] m)
+          = ONormal (mkst [VPtr lb 0; VInt bigz; VInt dir; VPtr br 0; VPtr bo 0; VInt nl] m)).
+  { xstep. unfold nl. destruct (Z.ltb_spec 0 dir) as [Ld|Ld]; xstep; cbn [andb].
+    - rd_chr R Hsm Hf Hr Ho Pr Po (S d).
+      destruct (isnl_at m lb bln lbs lines r o (S (S (S (S d)))) fuel R Hl Hok) as (c & Hc & Hcn). rewrite Hc. xstep. fold b in Hcn. rewrite Hcn.
+      destruct (is_nl (lchr b r o)); cbn [b2z]; xstep; rewrite chk_I32 by lia; xstep; reflexivity.
+    - rewrite chk_I32 by lia. xstep. reflexivity. }
+  rewrite exec_seq, Hs2. rewrite exec_seq. subst wl.
+  destruct (wordend_loop mf b dir nl r o) as [[early [[s0 r0] o0]]|] eqn:Eloop; [|discriminate].
+  destruct (we_loop_ok fuel d lb bln lbs lines br bo bigz dir Hsm Hok Hf Hd mf m r o nl fuel early s0 r0 o0 MM Hr Ho Hp Hmf Hnl Eloop)
+    as (Hp0 & nl' & Eex).
+  rewrite Eex. destruct early.
+  { injection Hres as <-. reflexivity. }
+  (* the loop ended on a non-blank: lbuf_wordlast from there *)
+  subst wt. unfold we_tail; cbn [fn_body cf_lbuf_wordend].
+  destruct (mot_mem_set_pos m lb bln lbs lines br bo r0 o0 MM) as (MM1 & Hr1 & Ho1).
+  pose proof MM1 as [R1 Hl1 _ _ _ Lr1 Lo1]. pose proof Hp0 as [Pr1 Po1].
+  set (m1 := set_pos m br bo r0 o0) in *.
+  set (K := if negb (bigz =? 0) then 3%N else kindof b r0 o0) in *.
+  destruct (lbuf_wordlast mf b K dir r0 o0) as [[[s1 r1] o1]|] eqn:Ewl0; [|discriminate].
+  assert (Hcall : callf cprog fuel (S (S (S (S (S d))))) F_lbuf_wordlast [VPtr lb 0; VInt (Z.of_N K); VInt dir; VPtr br 0; VPtr bo 0] m1
+                  = Ok (st_val1 s1, set_pos m1 br bo r1 o1)).
+  { apply (tr_lbuf_wordlast m1 lb bln lbs lines br bo K dir r0 o0 mf (s1, r1, o1) d fuel MM1 Hsm Hr1 Ho1 Hp0 Hd Ewl0 Hmf Hf). }
+  assert (Hfin : res = (s1, r1, o1)) by (destruct s1; injection Hres as <-; reflexivity).
+  subst res. unfold m1 in Hcall at 2. rewrite set_pos_set_pos in Hcall by assumption.
+  xstep. destruct (Z.eqb_spec bigz 0) as [Eb|Eb]; cbn [negb] in K; xstep.
+  - rd_chr R1 Hsm Hf Hr1 Ho1 Pr1 Po1 (S d).
+    rewrite (kind_at m1 lb bln lbs lines r0 o0 (S (S (S d))) fuel R1 Hl1). xstep. fold b. fold K.
+    rewrite Hcall. xstep. destruct s1; unfold st_val1; xstep; reflexivity.
+  - change 3 with (Z.of_N K). rewrite Hcall. xstep. destruct s1; unfold st_val1; xstep; reflexivity.
+Qed.
